@@ -29,7 +29,11 @@ fn interleave(c: usize, bw: bool, xs: &[i64], ty: Ty) -> String {
     res(guarded(move || {
         let il = Interleaver::new(c, bw);
         Ok(match ty {
-            Ty::I64 => il.interleave(&Array1::from_vec(xs)).to_vec(),
+            Ty::I64 => if xs.len() % 2 == 0 { il.interleave(&Array1::from_vec(xs)).to_vec() } else {
+                let rev: Vec<i64> = xs.iter().rev().copied().collect();
+                let a = Array1::from_vec(rev);
+                il.interleave(&a.slice(ndarray::s![..;-1])).to_vec()
+            },
             Ty::U8 => il
                 .interleave(&Array1::from_iter(xs.iter().map(|&x| x as u8)))
                 .iter()
@@ -87,7 +91,14 @@ fn puncture(p: &[bool], xs: &[i64], ty: Ty) -> String {
                 .puncture(&Array1::from_iter(xs.iter().map(|&x| x as f64)))
                 .map(|a| a.iter().map(|&x| x as i64).collect())
                 .map_err(|_| ()),
-            _ => pu.puncture(&Array1::from_vec(xs)).map(|a| a.to_vec()).map_err(|_| ()),
+            // i64 / u8 elements: the codeword arrives as an owned array, as a reversed view of the reversed array (stride -1), or strided
+            _ => match xs.len() % 3 {
+                0 => pu.puncture(&Array1::from_vec(xs)).map(|a| a.to_vec()).map_err(|_| ()),
+                1 => { let rev: Vec<i64> = xs.iter().rev().copied().collect(); let a = Array1::from_vec(rev);
+                       pu.puncture(&a.slice(ndarray::s![..;-1])).map(|a| a.to_vec()).map_err(|_| ()) }
+                _ => { let pad: Vec<i64> = xs.iter().flat_map(|&x| [x, -7]).collect(); let a = Array1::from_vec(pad);
+                       pu.puncture(&a.slice(ndarray::s![..;2])).map(|a| a.to_vec()).map_err(|_| ()) }
+            },
         }
     }))
 }
